@@ -93,7 +93,6 @@ type c16Mgr struct {
 	m   *connIDManager
 	c16MgrBounds
 	twice   bool // sticky: the manager stored one sequence number in two places at some point
-	revived bool // sticky: the manager stored a sequence number again after reporting it retired
 
 	// harness side of the callbacks
 	tokens   map[protocol.StatelessResetToken]bool
@@ -174,16 +173,27 @@ func (in *c16Mgr) held() (set uint32, inUse []uint64) {
 	return set, inUse
 }
 
-// hist qualifies violation keys with the history class they were reached in.
+// hist qualifies token / report violation keys with the history class they were reached in.
 func (in *c16Mgr) hist() string {
-	h := ""
 	if in.twice {
-		h += ":id-stored-twice"
+		return ":id-stored-twice"
 	}
-	if in.revived {
-		h += ":retired-id-stored-again"
+	return ""
+}
+
+// rejectCause looks at what the manager stores at the moment it rejects a frame within the
+// limit and names the discrepancy with the peer model (part of the violation key).
+func (in *c16Mgr) rejectCause() string {
+	held, _ := in.held()
+	switch {
+	case held&in.reported != 0:
+		return ":holds-retired-id"
+	case 1+len(in.m.queue)+len(in.m.pathProbing) != len(c16Bits(held)):
+		return ":id-stored-twice"
+	case held&(1<<in.maxRPT-1) != 0:
+		return ":retire-prior-to-ignored"
 	}
-	return h
+	return ""
 }
 
 func (in *c16Mgr) Ops() []explore.Op {
@@ -313,9 +323,6 @@ func (in *c16Mgr) Apply(op explore.Op) *explore.Fail {
 		}
 		in.maxRPT = max(in.maxRPT, rpt)
 		err := m.Add(f)
-		if ha, _ := in.held(); ha&^heldBefore&reportedBefore != 0 {
-			in.revived = true
-		}
 		if err != nil {
 			in.dead = true // the connection is closed with this error
 			in.outcome = "ncid:" + c16ErrClass(err)
@@ -328,7 +335,7 @@ func (in *c16Mgr) Apply(op explore.Op) *explore.Fail {
 			default:
 				active := in.activeIssued()
 				if len(active) <= in.advLimit {
-					return explore.Failf(in.limitKey()+in.hist(),
+					return explore.Failf(in.limitKey(),
 						"NEW_CONNECTION_ID(seq=%d, retire_prior_to=%d) rejected with %v although only %d connection IDs %v are active (issued by the peer, not below Retire Prior To %d, not reported retired) and this endpoint advertised active_connection_id_limit=%d",
 						seq, rpt, err, len(active), active, in.maxRPT, in.advLimit)
 				}
@@ -383,6 +390,9 @@ func c16Rel(a, b uint64) string {
 }
 
 func (in *c16Mgr) limitKey() string {
+	if c := in.rejectCause(); c != "" {
+		return "rejected-within-advertised-limit" + c
+	}
 	if in.cfg.uquic {
 		return fmt.Sprintf("advertised>enforced:active_connection_id_limit:SetConnectionIDLimit(%d)", in.advLimit)
 	}
@@ -502,7 +512,7 @@ func (in *c16Mgr) Outcome() string {
 func (in *c16Mgr) Key() string {
 	var sb strings.Builder
 	c16MgrDump(&sb, in.m)
-	fmt.Fprintf(&sb, "|adv=%d iss=%x rpt=%d rep=%x dead=%v tw=%v%v cs=%x ts=%x|%s", in.advLimit, in.issued, in.maxRPT, in.reported, in.dead, in.twice, in.revived,
+	fmt.Fprintf(&sb, "|adv=%d iss=%x rpt=%d rep=%x dead=%v tw=%v cs=%x ts=%x|%s", in.advLimit, in.issued, in.maxRPT, in.reported, in.dead, in.twice,
 		in.cidSup[:in.S+1], in.tokSup[:in.S+1], in.tokenList())
 	return sb.String()
 }
